@@ -89,6 +89,7 @@ let rec value s : value =
   | "N" -> VNil
   | "C" -> VChar (z_of_int (num s))
   | "S" -> VStr (str_items s)
+  | "T" -> VBStr (str_items s)
   | "Y" -> VSym (str_runes s)
   | "L" ->
     let n = num s in
@@ -151,6 +152,7 @@ let rec canon_value (v : value) : string =
     String.concat " " ("S" :: string_of_int (List.length s) ::
                        List.map (fun it -> match it with Rune c -> string_of_z c | BadByte b -> "-" ^ string_of_z b) s)
   | VSym n -> enc_runes "Y" n
+  | VBStr s -> canon_value (VStr s)
   | VPair (_, _) ->
     let rec go p acc = (match p with VPair (h, t) -> go t (canon_value h :: acc) | t -> (List.rev acc, t)) in
     let (items, tail) = go v [] in
@@ -273,8 +275,9 @@ let () =
              (Digest.to_hex (Digest.string (Buffer.contents b)), "-")
            | "qs" -> (items_str (quote_str is_print (str_items s)), "-")
            | "orc" -> ("ok", "-")
-           | "val" ->
+           | "val" | "scr" ->
              let j = next s in
+             if fields.(0) = "scr" then ignore (str_runes s);
              float_tab := []; bad_tok := false;
              let v = value s in
              let text = print is_print v in
@@ -285,7 +288,8 @@ let () =
                (match st, ex with
                 | StDone, [e] -> (match eval_json_like pf_oracle e with Some jv -> canon_j jv | None -> "ERROR")
                 | _ -> "ERROR") in
-             let m = "P=" ^ items_str text ^ " ;; R=" ^ r ^ " ;; EV=" ^ ev ^ (if !bad_tok then " ;; BADTOK" else "") in
+             let w = if j = "1" then items_str (save_text is_print v) else "-" in
+             let m = "P=" ^ items_str text ^ " ;; R=" ^ r ^ " ;; EV=" ^ ev ^ " ;; W=" ^ w ^ (if !bad_tok then " ;; BADTOK" else "") in
              let cv = canon_value v in
              let spec = "R=" ^ (if has_hash v then "-" else "D | " ^ cv) ^ " ;; E=" ^ (if j = "1" then cv else "-") in
              (m, spec)
